@@ -100,13 +100,18 @@ class BlockRowOperator(AbstractBlockOperator):
             op, leaf = op_leaf
             return jax.tree.map(jnp.add, value, op(leaf))
 
-        return jax.tree.reduce(
+        result = jax.tree.reduce(
             func,
             tree,
             is_leaf=lambda op_leaf: isinstance(op_leaf, tuple)
             and len(op_leaf) > 0
             and isinstance(op_leaf[0], AbstractLinearOperator),
         )
+        if len(self.block_leaves) == 1:
+            # with a single block, func is never called: the block still has to be evaluated
+            op, leaf = result
+            return op(leaf)
+        return result
 
     def transpose(self) -> AbstractLinearOperator:
         return BlockColumnOperator(self._tree_map(lambda op: op.T))
